@@ -88,8 +88,8 @@ PARTIAL += [
     "(validity check skipped, normalisation and duplicate test unchanged); step, specStep (specCreateBlock / specCreateFrameH with the flag), "
     "inContract, C04_refines / C04_wok_step / C04_inv_step cover both forms (Lemmas/StoreSpecRefine createBlock_specL / createFrame_specL); "
     "families store / storecontract generate lenient creations with valid, invalid and duplicate codes (NAME token suffix /L; executor: the "
-    "_internal functions with lenient = 1).  `interleaved with parsing`: the store calls of every parse that creates no save frame into a new "
-    "CIF are an in-contract history (C03_parse_is_store_history_partial, Props/C03Store.lean), so C04_refines_from_start and every theorem "
-    "about in-contract histories apply to what the parser built; with save frames / pre-existing targets this is executed (family parse, "
-    "sto=ok) but not proved.",
+    "_internal functions with lenient = 1).  `interleaved with parsing`: the store calls of EVERY parse into a new CIF are an in-contract history "
+    "(C03_parse_is_store_history, Props/C03Store.lean), so C04_refines_from_start and every theorem about in-contract histories apply to "
+    "what the parser built; pre-existing targets: as represented worlds (C03_parser_store_refines_from_rep), otherwise executed (family "
+    "parse, sto=ok).",
 ]
